@@ -143,7 +143,7 @@ func generate(r *hx.Rand, n int, tier string) []runDesc {
 	}
 	// last, so that the descriptions above are the ones earlier runs of the same seed had
 	for i := 0; i < quota(2); i++ {
-		ds = append(ds, runDesc{Kind: "cacheinit", Seed: r.U64() % 1000000, Workers: 2 + r.Intn(5), Ops: 2500 * scale})
+		ds = append(ds, runDesc{Kind: "cacheinit", Seed: r.U64() % 1000000, Workers: 2 + r.Intn(5), Ops: 10000 * scale})
 	}
 	for i := 0; i < quota(2); i++ {
 		ds = append(ds, runDesc{Kind: "idlefree", Seed: r.U64() % 1000000, Ops: 120 * scale})
